@@ -92,8 +92,8 @@ class _Logger(logging.Logger):  # use pkt.dtm for the log record timestamp
             name, level, fn, lno, msg, args, exc_info, func, extra, sinfo
         )
 
-        if hasattr(rv, "dtm"):  # if dtm := extra.get("dtm"):
-            ct = rv.dtm.timestamp()
+        if hasattr(rv, "_dtm"):  # the Packet's attr is _dtm (extra=pkt.__dict__)
+            ct = rv._dtm.timestamp()
             rv.created = ct
             rv.msecs = (ct - int(ct)) * 1000
 
